@@ -33,14 +33,14 @@ res "demo with patch exit=$W (expect !=0); suite with patch: $(tail -1 /tmp/base
 git -C /repo worktree remove --force $WT
 fi
 DET=""
-( cd /repo && ( git apply $DIFF || git apply -3 $DIFF ) ) || { res "patch does not apply to /repo"; ( cd /repo && git checkout -q -- . ); exit 2; }
+( cd /repo && ( git apply $DIFF || git apply -3 $DIFF ) ) || { res "patch does not apply to /repo"; ( cd /repo && git checkout -q HEAD -- . ); exit 2; }
 for C in $CHECKS; do
   ( cd /verif && timeout 1500 bin/check $C > /tmp/seed_check.log 2>&1 ); E=$?
   V=$(grep -c '^VIOLATION' /tmp/seed_check.log)
   res "check $C exit=$E violations=$V $(grep -A1 '^VIOLATION' /tmp/seed_check.log | grep -v '^VIOLATION\|^--' | head -2 | cut -c1-200 | tr '\n' ' ')"
   [ $E -eq 1 ] && DET="$DET $C"
 done
-( cd /repo && git checkout -q -- . )
+( cd /repo && git checkout -q HEAD -- . )
 python3 - <<PY
 import json
 json.dump({"property":"$P","mutant":$N,"source":"independent sub-agent given only the property text and a scratch worktree","confirmed":{"demo_fails_with_patch":$W!=0,"suite_passes_with_patch":$B==0,"demo_passes_without_patch":$WO==0},"checks_run":"$CHECKS".split(),"detected_by":"$DET".split(),"description":open("$OUT/description.txt").read() if __import__('os').path.exists("$OUT/description.txt") else ""},open("$OUT/meta.json","w"),indent=1)
